@@ -18,7 +18,9 @@ REGISTRY = {
     'C05': ('contracts.propsets', 'C05'),
     'C07': ('contracts.propsets', 'C07'),
     'C08': ('contracts.bake', 'C08'),
+    'C09': ('contracts.recipe_props', 'C09'),
     'C10': ('contracts.propsets', 'C10'),
+    'C15': ('contracts.recipe_props', 'C15'),
     'C11': ('contracts.propsets', 'C11'),
     'C12': ('contracts.propsets', 'C12'),
     'C17': ('contracts.propsets', 'C17'),
